@@ -6,12 +6,12 @@ from sa.dataflow import Poly, cmp_key, cmp_atoms
 from sa.resolve import walk_function
 
 EXPLANATION = (
-    "Decides the structural clauses of C15: (S1) Transmitter._reset sorts the candidate steps and keeps `start_date <= step` and `step <= end_date` "
-    "(both inclusive) of the selected fold; PartitionTimeRanges rejects folds with end < start; (S2) index algebra (polynomial normal form): the sampled "
-    "window steps[i : i+L-1+1] has length L, the candidate starts are steps[: -(L-1)] (all positions where the episode fits), the index is drawn over "
-    "range(len(start_dates)) and sampling weights are normalised; (S3) a configured episode_length n becomes n+1 states, reset fetches one batch and each "
-    "step one more, StopIteration ends the episode; (S5) walk_forward: test_end - test_start + 1 = test_size, test_start = train_end + 1, stride = test_size, "
-    "train_end - train_start + 1 = train_size (sliding)."
+    "Decides the structural clauses of C15: (S1) the steps Transmitter._reset stores are, by value id, those of a reference implementation kept with the rule: the sorted "
+    "event-bearing timesteps of both partitions with fold start <= t <= fold end (both inclusive) of the requested fold; nothing but _create_partitions adds a key to the "
+    "(defaultdict) partitions; PartitionTimeRanges keeps each name with its own window and rejects folds with end < start; (S2) with a length L the steps are steps[i : i + L] "
+    "with i drawn by np.random.choice over range(len(steps[: -(L - 1)])), optionally weighted by normalised (1 - 1/span) ** age; (S3) a configured episode_length n is stored "
+    "as n + 1 states, reset passes the override or the configured length as is, reset fetches one batch and each step one more, StopIteration ends the episode; (S5) walk_forward: "
+    "test_end - test_start + 1 = test_size, test_start = train_end + 1, stride = test_size, train_end - train_start + 1 = train_size (sliding), indices over the whole grid."
 )
 DECIDED = ["S1 steps lie in the inclusive fold window, in order", "S2 an episode of length L is L consecutive steps starting anywhere it fits", "S3 n decisions <-> n+1 states",
            "S5 walk-forward windows: disjoint, ordered, requested size, test follows own train"]
